@@ -229,11 +229,23 @@ OpInvoke(l) ==
   /\ LET n == FirstCallable(head[l], cur[l], MaxNodes + 1) IN
      IF n = 0
      THEN Same /\ UNCHANGED atodo /\ bad' = IF bad = "ok" /\ alist[l] # <<>> THEN "missed" ELSE bad
-     ELSE /\ Commit(alive, head, tail, cur, nxt, prv, gen, nalloc, Append(frames, [l |-> l, node |-> n, cnt |-> cur[l]]))
+     ELSE /\ Commit(alive, head, tail, cur, nxt, prv, gen, nalloc, Append(frames, [l |-> l, node |-> n, cnt |-> cur[l], kind |-> "v"]))
           /\ atodo' = Append(atodo, [todo |-> alist[l], wrapped |-> FALSE])
           /\ bad' = IF bad = "ok" /\ (alist[l] = <<>> \/ Head(alist[l]) # n) THEN "first" ELSE bad
   /\ UNCHANGED alist
   /\ hist' = Append(hist, <<"v", l, Len(hist) % 3>>)
+
+\* forEach with a function that is user code (it may change the list): the same traversal as an invocation
+OpForEachUser(l) ==
+  /\ En("fu") /\ alive[l] /\ Len(frames) < MaxDepth
+  /\ LET n == FirstCallable(head[l], cur[l], MaxNodes + 1) IN
+     IF n = 0
+     THEN Same /\ UNCHANGED atodo /\ bad' = IF bad = "ok" /\ alist[l] # <<>> THEN "missed" ELSE bad
+     ELSE /\ Commit(alive, head, tail, cur, nxt, prv, gen, nalloc, Append(frames, [l |-> l, node |-> n, cnt |-> cur[l], kind |-> "u"]))
+          /\ atodo' = Append(atodo, [todo |-> alist[l], wrapped |-> FALSE])
+          /\ bad' = IF bad = "ok" /\ (alist[l] = <<>> \/ Head(alist[l]) # n) THEN "first" ELSE bad
+  /\ UNCHANGED alist
+  /\ hist' = Append(hist, <<"fu", l, 0>>)
 
 CbReturn ==
   /\ frames # <<>>
@@ -330,7 +342,7 @@ OpDestroy(l) ==
   /\ alist' = [alist EXCEPT ![l] = <<>>] /\ UNCHANGED <<atodo, bad>>
   /\ hist' = Append(hist, <<"d", l, 0>>)
 
-Next == \/ \E l \in Lists : \/ OpAppend(l) \/ OpPrepend(l) \/ OpEmpty(l) \/ OpInvoke(l)
+Next == \/ \E l \in Lists : \/ OpAppend(l) \/ OpPrepend(l) \/ OpEmpty(l) \/ OpInvoke(l) \/ OpForEachUser(l)
                             \/ \E h \in 0..MaxNodes : OpInsert(l, h) \/ OpRemove(l, h) \/ OpOwns(l, h)
                             \/ OpHasAny(l) \/ \E h \in 1..MaxNodes : OpHasListener(l, h) \/ OpRemoveListener(l, h)
                             \/ \E k \in 0..2 : OpForEach(l, k)
